@@ -495,6 +495,13 @@ where
                     }
                 }
             }
+            92..=94 if rng.chance(1, 10) => {
+                // wild assert_bool / assert_zero: any expression, constants and folded constants included (the program
+                // may become unsatisfiable at the base inputs — `assert_bool(const 2)` — the oracle then expects the
+                // run to fail and the op list to be unsatisfiable)
+                let x = pick(rng, &ids);
+                pending.push(if rng.chance(2, 3) { Call::ABool(x) } else { Call::AZero(x) });
+            }
             92..=94 => {
                 let cands: Vec<u32> = ids
                     .iter()
